@@ -4,11 +4,11 @@
 #   <id> <check> exit=<rc> <n> violation line(s): <first classes>
 # /repo itself is not touched, so this can run next to other checks.  Evidence goes to build/tmp/ev_mutant.
 ID=$1; shift
-cd /verif
+cd ${VERIF_HOME:-/verif}
 P=$PWD/seeded/$ID/patch.diff
 WT=/tmp/mutant_wt_$$
 git -C /repo worktree add -q --detach $WT HEAD || { echo "cannot create scratch worktree"; exit 2; }
-trap 'git -C /repo worktree remove --force $WT >/dev/null 2>&1; git -C /repo worktree prune; find /verif/build/scratch -mindepth 1 -maxdepth 1 -mmin +90 -exec rm -rf {} + 2>/dev/null' EXIT
+trap 'git -C /repo worktree remove --force $WT >/dev/null 2>&1; git -C /repo worktree prune; find ${VERIF_HOME:-/verif}/build/scratch -mindepth 1 -maxdepth 1 -mmin +90 -exec rm -rf {} + 2>/dev/null' EXIT
 git -C $WT apply $P || { echo "patch does not apply"; exit 2; }
 mkdir -p build/tmp
 for C in "$@"; do
